@@ -4,7 +4,7 @@ from . import _secp as S
 ID = "C06"
 EXTRA_TARGETS = ["Proofs/EcdsaRefine.vo", "Proofs/EcdsaAbstractInst.vo"]
 LEVEL = "partial"
-RULE = ("every public function of src/signature/mod.rs and SighashSignature is reached by some op (hex and bytes variants, accessors, "
+RULE = ("CROSS PRODUCT every way a signature is produced (13 ways: deterministic x hash x reverse_k, sign_message, caller nonce x hash incl. nonces with raw s above AND below n/2, digest signing x hash, randomised x hash x reverse_k) x recovery through the signer's object and after a compact round trip x message and digest entry point x compression marker, spec = the signer's key; every public function of src/signature/mod.rs and SighashSignature is reached by some op (hex and bytes variants, accessors, "
         "get_public_key* and recover_public_key* cross-checked, from_compact_impl, RecoveryInfo::new / from_byte); signature objects "
         "with recovery info from the signer (used in memory, without a round trip), from from_compact_bytes and without recovery info "
         "(from_der) through to_compact_bytes(None / equal / different explicit info), recovery and verify_message; minimal (8-byte) and "
@@ -62,7 +62,7 @@ def leading_zero_and_identity_cases(A, rng, thorough):
         A("sig.from_der", [S.der(v, w).hex()])
         A("sighashsig.parse", [(S.der(w, v) + bytes([rng.choice(FLAGS)])).hex()])
     # genuine signatures with such r (caller nonce, made by the Python ECDSA): recovery with the right and the wrong id
-    for k in LZ_NONCES:
+    for k in (LZ_NONCES if thorough else LZ_NONCES[1:5]):
         d = rng.randrange(1, N)
         mb = bytes(rng.randrange(256) for _ in range(rng.randrange(1, 40)))
         double = rng.random() < 0.5
@@ -77,7 +77,7 @@ def leading_zero_and_identity_cases(A, rng, thorough):
         A("sig.sign_recover", [H(d), rng.randrange(2), m.hex(), hn, 0, m.hex(), hn])
     # ---- signatures that recover to the point at infinity: R = kG, r = x(R) mod n, s = z / k mod n  (s*R = z*G) ----
     parities = set()
-    nonces = ID_NONCES + ([rng.randrange(1, N) for _ in range(20)] if thorough else [rng.randrange(1, N) for _ in range(3)])
+    nonces = (ID_NONCES + [rng.randrange(1, N) for _ in range(20)]) if thorough else [1, 2, 153, 1158, N - 1, rng.randrange(1, N)]
     for k in nonces:
         R = S.mul(k, S.G)
         r, odd = R[0] % N, R[1] & 1
@@ -92,7 +92,7 @@ def leading_zero_and_identity_cases(A, rng, thorough):
         A("sig.recover_digest", ["%02x" % (27 + (1 - odd) + 4) + H(r) + H(s_), H(z)])            # other parity: an ordinary key
         if z + N < 2 ** 256:
             A("sig.recover_digest", ["%02x" % (27 + odd) + H(r) + H(s_), H(z + N)])              # digest >= n, same z
-        for hn in ("sha256", "sha256d"):
+        for hn in (("sha256", "sha256d") if thorough else (("sha256", "sha256d")[k % 2],)):
             mb = bytes(rng.randrange(256) for _ in range(rng.randrange(0, 50)))
             zm = int.from_bytes(S.h256(mb, hn == "sha256d"), "big") % N
             sm = zm * kinv % N
@@ -153,7 +153,7 @@ def audit_cases(A, rng, thorough):
     d = 0x1111111111111111111111111111111111111111111111111111111111111111
     k = 0
     for c in (0, 1):
-        for i in (INFOS if thorough else ["n", "00", "01", "10", "11", "31"]):
+        for i in (INFOS if thorough else ["n", "01", "10", "31"]):
             h = ["sha256", "sha256d"][k % 2]
             m = ["", "616263", "00"][k % 3]
             A("sig.signed", [H(d if k % 2 else rng.randrange(1, N)), c, m, h, (k // 2) % 2, i, m, h])
@@ -198,6 +198,45 @@ def audit_cases(A, rng, thorough):
     A("sig.from_der", [S.der(5, 6).hex() + "+r:00:256"])
     A("sighashsig.parse", [S.der(5, 6).hex() + "+r:41:256"])
     A("sig.from_hex_der", [(S.der(5, 6).hex() + "41").encode().hex()])
+
+
+WAYS = [("det", "sha256", 0), ("det", "sha256", 1), ("det", "sha256d", 0), ("det", "sha256d", 1), ("msg", "sha256", 0),
+        ("k", "sha256", 0), ("k", "sha256d", 1), ("dig", "sha256", 0), ("dig", "sha256d", 0),
+        ("rnd", "sha256", 0), ("rnd", "sha256", 1), ("rnd", "sha256d", 0), ("rnd", "sha256d", 1)]
+FORMS = [("mem", "m"), ("mem", "d"), ("cmp", "m"), ("cmp", "d")]
+
+
+def cross_cases(A, rng, thorough):
+    """every way a signature is produced x every form of recovery (signer's object / compact round trip, message / digest
+    entry point) x both compression markers; the specification column demands the signer's key.  For the caller-nonce signer:
+    nonces for which the raw s is in the upper half (normalised to n - s, recovery bit flipped) AND nonces for which it is not."""
+    H = S.h32
+    idx = 0
+    for (signer, h, rk) in WAYS:
+        for (route, entry) in FORMS:
+            for c in ((0, 1) if thorough else (idx % 2,)):
+                d = rng.randrange(1, N)
+                m = bytes(rng.randrange(256) for _ in range(rng.randrange(0, 60))).hex()
+                aux = H(rng.randrange(1, N)) if signer == "k" else ("l:%d:32" % rng.randrange(1, 2 ** 31) if signer == "rnd" else "00")
+                A("sig.cross", [signer, H(d), c, m, h, rk, aux, route, entry])
+            idx += 1
+    found = {True: 0, False: 0}
+    want = 6 if thorough else 3
+    while min(found.values()) < want:
+        d, k = rng.randrange(1, N), rng.randrange(1, N)
+        mb = bytes(rng.randrange(256) for _ in range(rng.randrange(0, 40)))
+        double = rng.random() < 0.5
+        z = int.from_bytes(S.h256(mb, double), "big") % N
+        r = S.mul(k, S.G)[0] % N
+        high = pow(k, N - 2, N) * (z + r * d) % N > N // 2
+        if found[high] >= want:
+            continue
+        found[high] += 1
+        hn = "sha256d" if double else "sha256"
+        for j, (route, entry) in enumerate(FORMS if thorough else [FORMS[found[high] % 4], FORMS[(found[high] + 2) % 4]]):
+            A("sig.cross", ["k", H(d), (found[high] + j) % 2, mb.hex(), hn, j % 2, H(k), route, entry])
+    A("sig.cross", ["k", H(5), 1, "00", "sha256", 0, H(0), "mem", "m"])
+    A("sig.cross", ["det", H(0), 1, "00", "sha256", 0, "00", "cmp", "d"])
 
 
 def rscalar(rng):
@@ -328,7 +367,7 @@ def generate(rng, tier):
         A("sig.from_compact", ["%02x" % rng.randrange(27, 35) + H(rr) + H(ss)])
 
     # ---------------------------------------------------------------- recovery from signatures made by the Python ECDSA
-    for _ in range(5 * mult):
+    for _ in range(3 if not thorough else 40):
         d = rng.choice([1, 2, N - 1, rng.randrange(1, N), rng.randrange(1, N)])
         double = rng.random() < 0.5
         hname = "sha256d" if double else "sha256"
@@ -364,15 +403,16 @@ def generate(rng, tier):
     # ---------------------------------------------------------------- leading zero bytes; recovery to the identity
     leading_zero_and_identity_cases(A, rng, thorough)
     audit_cases(A, rng, thorough)
+    cross_cases(A, rng, thorough)
 
     # ---------------------------------------------------------------- sign -> compact -> parse -> recover through the library
-    for _ in range(12 * mult):
+    for _ in range(5 if not thorough else 96):
         d = rng.choice([1, 2, N - 1, N - 2, 2 ** 255, rng.randrange(1, N), rng.randrange(1, N), rng.randrange(1, N)])
         n = rng.choice([0, 1, 32, 55, 56, 64, 100, rng.randrange(0, 200)])
         m = bytes(rng.randrange(256) for _ in range(n)).hex()
         h = rng.choice(["sha256", "sha256d"])
         A("sig.sign_recover", [H(d), rng.randrange(2), m, h, rng.randrange(2), m, h])
-    for _ in range(6 * mult):
+    for _ in range(3 if not thorough else 48):
         d = rng.randrange(1, N)
         m = bytes(rng.randrange(256) for _ in range(rng.randrange(1, 40))).hex()
         h = rng.choice(["sha256", "sha256d"])
